@@ -9,7 +9,7 @@ oracle:         the real start-up (simulation_initializer over a written mesh fi
                 oriented surface with Euler characteristic 2 and positive signed volume, or the start-up throws
                 intialization_exception; Poisson clouds pairwise >= l_min apart; fidelity (volume, bounding box) is
                 measured and recorded, with a generous verdict threshold."""
-import random, json, math
+import random, json, math, os
 import vlib, tissue
 from vlib import hx, unhx
 
@@ -107,9 +107,10 @@ def gen_pds(rng):
     return "PDS %s %s %s %d %s" % (hx(lmin), " ".join(hx(x) for x in lo), " ".join(hx(x) for x in hi), len(pts), " ".join(hx(x) for p in pts for x in p)), lmin, pts
 
 
-def gen_ini(rng):
-    shape = rng.choice(["cube", "box", "prism", "lshape", "ellipsoid", "ellipsoid"])
+def gen_ini(rng, force=None):
+    shape = force or rng.choice(["cube", "box", "prism", "lshape", "ellipsoid", "ellipsoid", "ellipsoid", "two_tetra_one_vertex", "torus", "open_box", "fin_on_edge"])
     size = 5e-6
+    rejected = shape in ("two_tetra_one_vertex", "torus", "open_box", "fin_on_edge")    # closed-looking or open inputs the acceptance gate must refuse
     if shape == "cube":
         n, f = box(1, 1, 1)
     elif shape == "box":
@@ -118,6 +119,23 @@ def gen_ini(rng):
         n, f = prism(rng.choice([3, 5, 6, 8]), 0.6, rng.uniform(0.6, 1.5))
     elif shape == "lshape":
         n, f = lshape(0.5)
+    elif shape == "two_tetra_one_vertex":
+        # every edge has two faces, V - E + F = 3
+        n = [[0, 0, 0], [1, 0, 0], [0, 1, 0], [0, 0, 1], [-1, 0, 0], [0, -1, 0], [0, 0, -1]]
+        f = [[0, 2, 1], [0, 1, 3], [0, 3, 2], [1, 2, 3], [0, 4, 5], [0, 6, 4], [0, 5, 6], [4, 6, 5]]
+    elif shape == "torus":
+        R1, r1, A, B = 0.7, 0.25, rng.choice([5, 6, 8]), rng.choice([4, 5])
+        n = [[(R1 + r1 * math.cos(2 * math.pi * j / B)) * math.cos(2 * math.pi * i / A), (R1 + r1 * math.cos(2 * math.pi * j / B)) * math.sin(2 * math.pi * i / A), r1 * math.sin(2 * math.pi * j / B)] for i in range(A) for j in range(B)]
+        f = []
+        for i in range(A):
+            for j in range(B):
+                a = i * B + j; b = ((i + 1) % A) * B + j; c = ((i + 1) % A) * B + (j + 1) % B; d = i * B + (j + 1) % B
+                f += [[a, b, c], [a, c, d]]
+    elif shape == "open_box":
+        n, f = box(1, 1, 1); f = [list(t) for t in f]; del f[rng.randrange(len(f))]
+    elif shape == "fin_on_edge":
+        n, f = box(1, 1, 1); f = [list(t) for t in f]; a, b = f[0][0], f[0][1]
+        n = list(n) + [[2.0, 2.0, 2.0]]; f.append([a, b, len(n) - 1])
     else:
         n0, f0 = tissue.icosphere(rng.choice([1, 2]))
         ax = (rng.uniform(0.7, 1.3), rng.uniform(0.7, 1.3), rng.uniform(0.7, 1.3))
@@ -130,7 +148,7 @@ def gen_ini(rng):
         f = [list(reversed(face)) for face in f]
     elif wind == "mixed":
         f = [list(reversed(face)) if rng.random() < 0.5 else face for face in f]
-    tri = rng.choice([1, 1, 1, 0])
+    tri = rng.choice([1, 1, 1, 0]) if not rejected else (0 if force else rng.choice([0, 0, 1]))
     if tri == 0:
         f2 = []
         for face in f:
@@ -146,7 +164,7 @@ def gen_ini(rng):
     vol = abs(poly_volume(n, f)) if wind != "mixed" else abs(poly_volume(n, [face for face in f]))
     lo = [min(p[k] for p in n) for k in range(3)]; hi = [max(p[k] for p in n) for k in range(3)]
     line = "INI %d %d %s %d %d %s" % (rng.randrange(10 ** 6), tri, hx(lmin), rng.choice([0, 0, 2]), nc, " ".join(ms))
-    return dict(line=line, shape=shape, wind=wind, tri=tri, ratio=ratio, lmin=lmin, vol=vol, lo=lo, hi=hi, size=size, nc=nc)
+    return dict(line=line, shape=shape, wind=wind, tri=tri, ratio=ratio, lmin=lmin, vol=vol if not rejected else 0.0, lo=lo, hi=hi, size=size, nc=nc, rejected=rejected)
 
 
 def run(ck):
@@ -200,10 +218,17 @@ def run(ck):
                     break
             if bad:
                 fails.append(("sampled_points_pairwise_lmin_apart", dict(input=l[:20000]), "points %d and %d of the Poisson cloud are %.4f l_min apart" % bad))
-            if ids_i != ids_m:
+            # the model's points carry no id (the driver names a point by the first input point at that position): compare positions
+            first = {}
+            for j_, q_ in enumerate(pts):
+                first.setdefault(tuple(q_), j_)
+            if [first[tuple(pts[a])] for a in ids_i] != ids_m:
                 broken.append((l, "Poisson cloud differs: implementation %s..., model %s..." % (ids_i[:12], (ids_m or [])[:12])))
     # ---- the real start-up
-    cases = [gen_ini(rng) for _ in range(nini)]
+    # every surface the gate must refuse is presented once without reconstruction (all retries then fail in the acceptance step)
+    import glob
+    corpus = [json.load(open(f))["case"] for f in sorted(glob.glob(os.path.join(vlib.VERIF, "corpus", "C13", "*.json")))]   # earlier failures run first
+    cases = corpus + [gen_ini(rng, force=sh) for sh in ("two_tetra_one_vertex", "torus", "open_box", "fin_on_edge")] + [gen_ini(rng) for _ in range(nini)]
     from concurrent.futures import ThreadPoolExecutor
     def one(c):
         try:
